@@ -56,7 +56,7 @@ REQUIRED = {"all": ["runs", "completed_runs", "steps", "accepted_steps", "reject
                     "runs_converged_before_the_first_step", "ranges_not_aligned_to_the_partition", "proposals_identical_to_the_current_sequence",
                     "runs_under_a_jumping_wall_clock", "other_machine_set_up_on_the_same_directory",
                     "runs_on_chains_longer_than_30", "runs_with_flatness_criterion_one", "machines_from_a_reinitialised_front_end",
-                    "runs_with_50_or_100_bins", "runs_with_odd_check_periods", "runs_over_unreachable_bins"]}
+                    "runs_with_50_or_100_bins", "runs_with_odd_check_periods", "runs_over_unreachable_bins", "runs_of_five_iterations_over_two_bins"]}
 NRUNS = {"quick": 160, "thorough": 1200}
 STEP_BUDGET = {"quick": 3000, "thorough": 30000}
 WATCHDOG = {"quick": 1200, "thorough": 6 * 3600}
@@ -188,6 +188,11 @@ def cases(tier, seed):
             yield {"s": seq, "M": Mf, "a": a_f, "b": b_f, "flatchk": rng.choice([7, 50]), "flatcrit": 0.0, "conv": "e0.6",
                    "frozen": [], "hostile": False, "o": rng.randrange(1 << 30), "twice": False, "fine": True}
             continue
+        if i % 16 == 10:
+            # five iterations over two bins: ln-DOS entries of several hundred with increments of 1/16 (7-8 significant digits in the files)
+            yield {"s": seq, "M": 2, "a": 0, "b": 2, "flatchk": rng.choice([400, 500]), "flatcrit": 0.0, "conv": "e0.05",
+                   "frozen": [], "hostile": False, "o": rng.randrange(1 << 30), "twice": False, "five_iter": True}
+            continue
         if i % 16 == 6:
             # check periods that are not multiples of anything the sampler derives from them (progress dots every period // 20 steps)
             yield {"s": seq, "M": rng.choice([2, 4]), "a": 0, "b": 0, "flatchk": rng.choice([41, 64, 128, 150, 250, 256, 333]), "flatcrit": 0.0,
@@ -242,7 +247,7 @@ def nonaligned_range(rng):
     return None
 
 
-CONV = {"e": math.e, "3.0": 3.0, "e+ulp": math.nextafter(math.e, 3.0), "e0.6": math.exp(0.6), "e0.3": math.exp(0.3), "1.2": 1.2, "e0.1": math.exp(0.1), "default": math.exp(0.000001),
+CONV = {"e0.05": math.exp(0.05), "e": math.e, "3.0": 3.0, "e+ulp": math.nextafter(math.e, 3.0), "e0.6": math.exp(0.6), "e0.3": math.exp(0.3), "1.2": 1.2, "e0.1": math.exp(0.1), "default": math.exp(0.000001),
         "1+1e-10": 1.0 + 1e-10, "1+1e-12": 1.0 + 1e-12}
 
 
@@ -604,7 +609,7 @@ def judge(case, rep, S):
         rep.cnt("runs_on_chains_longer_than_30")
     if case.get("crit_one"):
         rep.cnt("runs_with_flatness_criterion_one")
-    for key_, cnt_ in (("fine", "runs_with_50_or_100_bins"), ("odd_period", "runs_with_odd_check_periods"), ("unreachable", "runs_over_unreachable_bins")):
+    for key_, cnt_ in (("five_iter", "runs_of_five_iterations_over_two_bins"), ("fine", "runs_with_50_or_100_bins"), ("odd_period", "runs_with_odd_check_periods"), ("unreachable", "runs_over_unreachable_bins")):
         if case.get(key_):
             rep.cnt(cnt_)
     if (a, b) != (0, Mb):
